@@ -249,7 +249,7 @@ Alloc(cell, mk(_), k) == /\ heap' = Append(heap, cell) /\ Goto([m |-> "val", v |
 
 IndexIn(v, len) ==    \* position (1-based) denoted by index value v in a sequence of length len
   CASE v.t = "num" -> (IF HasI64(v.n) /\ FitsInt(v.n) /\ ToInt(v.n) >= 0 /\ ToInt(v.n) < len THEN Val(ToInt(v.n) + 1) ELSE Err("index"))
-    [] v.t = "str" -> (IF LooksNumeric(v.s) THEN Unspec("numeric-string") ELSE Err("index"))
+    [] v.t = "str" -> (IF LooksNumeric(v.s) \/ MaybeNumeric(v.s) THEN Unspec("numeric-string") ELSE Err("index"))
     [] Vague(v) -> Unspec("vague-operand")
     [] OTHER -> Err("index")
 
